@@ -14,7 +14,7 @@ BOUNDS = {
 }
 OUTSIDE = "N>4, more than 4 keys or 2 topologies; draw mechanisms other than (1) one weighted random.choices call or (2) inversion of the " \
           "dictionary-order cumulative weights with one random.random() per draw (confirmed when the path condition entails the interval, " \
-          "otherwise the law is reported undecided - no refutation for mechanism 2); statistical quality of random.choices / random.random"
+          "otherwise the law is left to the law-by-measure configurations: four concrete weight vectors, N<=2, motif size 1, where the probability of every path is the volume of its box of uniform variates and the table over all paths must be the product law); statistical quality of random.choices / random.random"
 ASSUMPTIONS = ["random.choices draws index i with probability weights[i]/sum(weights) (CPython) - the check proves that it is called once "
                "with k=N, the keys in dictionary order and weights proportional to the distribution's values",
                "motif sizes are positive integers"]
@@ -46,6 +46,11 @@ def configs(tier):
     for dt in ("uint8", "uint32", "int64"):
         for sizes in ([3], [5]):
             cfgs.append({"name": f"numpy-{dt}-sizes{sizes}", "K": 1, "sizes": sizes, "N": 2, "nk": 2, "D": 2, "numpy": dt})
+    # the law itself for samplers built on random.random(): concrete (unnormalised) weights, motif size 1 (the sample IS the draw); every
+    # path's probability is the volume of its box of uniform variates and the table over all paths must be the product law
+    for nm, keys, W, N in (("ints-N1", [(1,), (0,), (2,)], [3, 1, 2], 1), ("ints-N2", [(1,), (0,), (2,)], [3, 1, 2], 2),
+                           ("floats-N1", [(2,), (5,)], [0.25, 0.125], 1), ("two-columns-N2", [(0, 1), (1, 0), (1, 1)], [1, 5, 2], 2)):
+        cfgs.append({"name": f"law-by-measure-{nm}", "measure": True, "keys": keys, "W": W, "N": N, "K": len(keys[0]), "sizes": [1] * len(keys[0]), "nk": len(keys), "D": 5})
     # the distribution of one loader object is replaced between two samplings (setter / re-created empirical table)
     for how in ("setter", "empirical"):
         cfgs.append({"name": f"resample-{how}-N2", "K": 1, "sizes": [2], "N": 2, "nk": 2, "D": 2, "resample": how})
@@ -94,6 +99,8 @@ def path(ctx, cfg):
     from gcmpy.names.joint_degree_names import JointDegreeNames as JN
 
     K, sizes, N = cfg["K"], cfg["sizes"], cfg["N"]
+    if cfg.get("measure"):
+        return path_measure(ctx, cfg, JointDegreeManual, JN)
     how = cfg.get("resample")
     if how == "empirical":
         # empirical loader: observed sequence 1 -> sample -> sequence 2 through the public setter + create_jdd() -> sample
@@ -149,6 +156,75 @@ def path(ctx, cfg):
         cap = spy_handshake(loader)
         out = ctx.guard("sampling-raised", loader.sample_jds_from_jdd, N)
     return check_sample(ctx, desc, out, keys, W, sizes, N, K, n0, cap, free_weights=True)
+
+
+def path_measure(ctx, cfg, JointDegreeManual, JN):
+    from fractions import Fraction
+
+    keys, W, N = [tuple(k) for k in cfg["keys"]], cfg["W"], cfg["N"]
+    loader = ctx.guard("loader-raised", JointDegreeManual, {JN.JDD: dict(zip(keys, W)), JN.MOTIF_SIZES: list(cfg["sizes"])})
+    n0 = len(ctx.rng_log)
+    out = ctx.guard("sampling-raised", loader.sample_jds_from_jdd, N)
+    log = ctx.rng_log[n0:]
+    uni = [c for c in log if c["fn"] == "random"]
+    if any(c["fn"] == "choices" and c["weights"] is not None for c in log) or not uni:
+        ctx.note("law-by-measure not applicable: the sampler does not draw through random.random() (decided by the weighted-draw obligations)")
+        return
+    if len(out) != N:
+        ctx.require(False, "length", f"measure config {cfg['name']}: {len(out)} entries returned")
+        return
+    outc = [[ctx.fork_int(x) for x in e] for e in out]
+    if ctx.mode == "sym":
+        vol = ctx.box_volume([c["result"] for c in uni])
+        if vol is None:
+            ctx.note("undecided: the region of the uniform variates on a path is not a box (law-by-measure not decided)")
+            return
+        ctx.extra_values = {"__volume": f"{vol.numerator}/{vol.denominator}"}
+    else:
+        if "__volume" not in ctx.values:
+            return
+        vol = Fraction(ctx.values["__volume"])
+    ctx.note("random()-based sampler: the law is decided from the measure of the paths")
+    ctx.contribute("law", {"out": outc, "p": [vol.numerator, vol.denominator]})
+    ctx.observe("out", outc)
+
+
+def expected_labels(agg):
+    if any(k.startswith("random()-based sampler") for k in agg.notes):
+        return EXPECTED_LABELS + ["law-by-measure"]
+    return EXPECTED_LABELS
+
+
+def finalize(cfg, tag, records, complete):
+    from fractions import Fraction
+
+    if tag != "law":
+        return []
+    keys, N = [tuple(k) for k in cfg["keys"]], cfg["N"]
+    W = [Fraction(w) for w in cfg["W"]]
+    tot = sum(W)
+    prob = {}
+    for r in records:
+        k = tuple(tuple(e) for e in r["payload"]["out"])
+        prob[k] = prob.get(k, 0) + Fraction(*r["payload"]["p"])
+    total = sum(prob.values())
+    if not complete or abs(total - 1) > Fraction(1, 10 ** 12):
+        return [{"label": "law-by-measure", "undecided": f"law-by-measure table incomplete (total measure {float(total)}): undecided"}]
+    bad = []
+    import itertools
+
+    for combo in itertools.product(range(len(keys)), repeat=N):
+        want = Fraction(1)
+        for i in combo:
+            want *= W[i] / tot
+        got = prob.get(tuple(keys[i] for i in combo), Fraction(0))
+        if abs(got - want) > Fraction(1, 10 ** 12):
+            bad.append((tuple(keys[i] for i in combo), float(got), float(want)))
+    extra = [k for k in prob if any(e not in keys for e in k)]
+    ok = not bad and not extra
+    return [{"label": "law-by-measure", "ok": ok, "sig": "law-by-measure",
+             "detail": f"keys={keys} weights={cfg['W']} N={N}: (sample, probability found, probability required) {bad[:4]}" +
+                       (f"; samples that are not keys: {extra[:3]}" if extra else "")}]
 
 
 def check_sample(ctx, desc, out, keys, W, sizes, N, K, n0, cap=None, free_weights=False):
@@ -210,7 +286,7 @@ def check_sample(ctx, desc, out, keys, W, sizes, N, K, n0, cap=None, free_weight
             goals.append(r * tot >= lo)
             if i < len(keys) - 1:
                 goals.append(r * tot < lo + W[i])
-        proved = ctx.mode != "sym" or ctx.entails(list(ctx.pc), all_(goals)) == "unsat"
+        proved = (bool(all_(goals)) if ctx.mode != "sym" else ctx.entails(list(ctx.pc), all_(goals)) == "unsat")
         if proved:
             ctx.require(all_(goals), "weighted-draw", f"{desc}: inverse-CDF draw outside the key's cumulative-weight interval", logic="QF_NRA")
         else:
